@@ -537,6 +537,8 @@ MValue tweak(vh::Reader &rd, const MValue &v)
     case 4:
       return MValue(std::get<4>(v) + 1u);
     case 5:
+      if (std::get<5>(v) == 0.0)
+        return MValue(-std::get<5>(v));  // the other zero: an either-way pair
       return MValue(std::nextafter(std::get<5>(v), 1e308));
     case 6:
     {
@@ -1022,4 +1024,1076 @@ VH_TARGET(attr_value, 12,
     types.insert(sg::mvalue_type(kv.second));
   for (auto &t : types)
     c.tag("type-" + t);
+}
+
+// ================================================================================================
+// series level: shared pieces
+namespace
+{
+class CycleReader : public sdkm::MetricReader
+{
+public:
+  explicit CycleReader(sdkm::AggregationTemporality t) : t_(t) {}
+  sdkm::AggregationTemporality GetAggregationTemporality(sdkm::InstrumentType) const noexcept override { return t_; }
+  bool OnForceFlush(std::chrono::microseconds) noexcept override { return true; }
+  bool OnShutDown(std::chrono::microseconds) noexcept override { return true; }
+
+private:
+  sdkm::AggregationTemporality t_;
+};
+
+class FixedCollector : public sdkm::CollectorHandle
+{
+public:
+  explicit FixedCollector(sdkm::AggregationTemporality t) : t_(t) {}
+  sdkm::AggregationTemporality GetAggregationTemporality(sdkm::InstrumentType) noexcept override { return t_; }
+
+private:
+  sdkm::AggregationTemporality t_;
+};
+
+// instrument kinds: even = integer valued, odd = floating; 0/1 counter, 2/3 up-down counter,
+// 4/5 histogram
+struct Instr
+{
+  int kind = 0;
+  nostd::unique_ptr<apim::Counter<uint64_t>> lc;
+  nostd::unique_ptr<apim::Counter<double>> dc;
+  nostd::unique_ptr<apim::UpDownCounter<int64_t>> lu;
+  nostd::unique_ptr<apim::UpDownCounter<double>> du;
+  nostd::unique_ptr<apim::Histogram<uint64_t>> lh;
+  nostd::unique_ptr<apim::Histogram<double>> dh;
+
+  static bool is_double(int kind) { return kind % 2 == 1; }
+  static bool is_hist(int kind) { return kind >= 4; }
+  static bool is_signed(int kind) { return kind == 2 || kind == 3; }
+  static sdkm::InstrumentType type(int kind)
+  {
+    return kind < 2 ? sdkm::InstrumentType::kCounter
+                    : kind < 4 ? sdkm::InstrumentType::kUpDownCounter : sdkm::InstrumentType::kHistogram;
+  }
+  static const char *name(int kind)
+  {
+    static const char *n[] = {"u64-counter", "f64-counter", "i64-updown", "f64-updown", "u64-histogram", "f64-histogram"};
+    return n[kind];
+  }
+  void create(apim::Meter &m, const std::string &nm)
+  {
+    switch (kind)
+    {
+      case 0:
+        lc = m.CreateUInt64Counter(nm, "", "u");
+        break;
+      case 1:
+        dc = m.CreateDoubleCounter(nm, "", "u");
+        break;
+      case 2:
+        lu = m.CreateInt64UpDownCounter(nm, "", "u");
+        break;
+      case 3:
+        du = m.CreateDoubleUpDownCounter(nm, "", "u");
+        break;
+      case 4:
+        lh = m.CreateUInt64Histogram(nm, "", "u");
+        break;
+      default:
+        dh = m.CreateDoubleHistogram(nm, "", "u");
+        break;
+    }
+  }
+  // kv == nullptr: the overload without attributes
+  void record(int64_t v, const common::KeyValueIterable *kv, bool with_context)
+  {
+    otel::context::Context ctx{};
+    switch (kind)
+    {
+      case 0:
+        if (!kv)
+          with_context ? lc->Add(static_cast<uint64_t>(v), ctx) : lc->Add(static_cast<uint64_t>(v));
+        else
+          with_context ? lc->Add(static_cast<uint64_t>(v), *kv, ctx) : lc->Add(static_cast<uint64_t>(v), *kv);
+        break;
+      case 1:
+        if (!kv)
+          with_context ? dc->Add(static_cast<double>(v), ctx) : dc->Add(static_cast<double>(v));
+        else
+          with_context ? dc->Add(static_cast<double>(v), *kv, ctx) : dc->Add(static_cast<double>(v), *kv);
+        break;
+      case 2:
+        if (!kv)
+          with_context ? lu->Add(v, ctx) : lu->Add(v);
+        else
+          with_context ? lu->Add(v, *kv, ctx) : lu->Add(v, *kv);
+        break;
+      case 3:
+        if (!kv)
+          with_context ? du->Add(static_cast<double>(v), ctx) : du->Add(static_cast<double>(v));
+        else
+          with_context ? du->Add(static_cast<double>(v), *kv, ctx) : du->Add(static_cast<double>(v), *kv);
+        break;
+      case 4:
+        if (!kv)
+          lh->Record(static_cast<uint64_t>(v), ctx);
+        else
+          lh->Record(static_cast<uint64_t>(v), *kv, ctx);
+        break;
+      default:
+        if (!kv)
+          dh->Record(static_cast<double>(v), ctx);
+        else
+          dh->Record(static_cast<double>(v), *kv, ctx);
+        break;
+    }
+  }
+};
+
+// what was recorded for one attribute set in some period (all values are integers below 2^51 in
+// magnitude, so floating instruments add them exactly in any order)
+struct Acc
+{
+  int64_t sum    = 0;
+  uint64_t count = 0;
+  uint64_t mask  = 0;  // bit-valued runs: which records
+  KVMap attrs;
+};
+using Period = std::map<std::string, Acc>;
+
+struct PV
+{
+  int64_t sum    = 0;
+  uint64_t count = 0;
+};
+
+// the value of a reported point; fails on a point of the wrong kind
+PV point_value(vh::Case &c, const sdkm::PointType &p, int kind, const std::string &what)
+{
+  PV r;
+  auto as_int = [&](const sdkm::ValueType &v) -> int64_t {
+    if (Instr::is_double(kind))
+    {
+      VH_CHECK(c, nostd::holds_alternative<double>(v), what << ": an integer value in a floating instrument's point");
+      double d = nostd::get<double>(v);
+      VH_CHECK(c, d > -9e15 && d < 9e15 && d == static_cast<double>(static_cast<int64_t>(d)),
+               what << ": reports " << sg::show_double(d) << " although only whole numbers were recorded");
+      return static_cast<int64_t>(d);
+    }
+    VH_CHECK(c, nostd::holds_alternative<int64_t>(v), what << ": a floating value in an integer instrument's point");
+    return nostd::get<int64_t>(v);
+  };
+  if (Instr::is_hist(kind))
+  {
+    VH_CHECK(c, nostd::holds_alternative<sdkm::HistogramPointData>(p), what << ": not a histogram point");
+    const auto &h = nostd::get<sdkm::HistogramPointData>(p);
+    r.sum         = as_int(h.sum_);
+    r.count       = h.count_;
+    uint64_t cs   = 0;
+    for (auto x : h.counts_)
+      cs += x;
+    VH_CHECK(c, cs == h.count_, what << ": bucket counts add up to " << cs << " but count is " << h.count_);
+  }
+  else
+  {
+    VH_CHECK(c, nostd::holds_alternative<sdkm::SumPointData>(p), what << ": not a sum point");
+    r.sum = as_int(nostd::get<sdkm::SumPointData>(p).value_);
+  }
+  return r;
+}
+
+bool is_overflow_attrs(const KVMap &m)
+{
+  return m.size() == 1 && m.begin()->first == "otel.metrics.overflow" && m.begin()->second.index() == 0 &&
+         std::get<0>(m.begin()->second);
+}
+
+struct LimitTags
+{
+  bool overflow_seen = false, exact_report = false, at_limit_minus_1 = false, at_limit = false, above_limit = false;
+  bool stale_zero = false;
+};
+
+// One report of one reader/collector against what was recorded in the period the report covers
+// (delta: since this reader's last collection; cumulative: since the start).  `points` == nullptr:
+// nothing was delivered.
+void check_limit_report(vh::Case &c,
+                        const std::string &label,
+                        size_t limit,
+                        int kind,
+                        bool bits,
+                        const Period &recorded,
+                        const std::set<std::string> &ever,
+                        const std::vector<sdkm::PointDataAttributes> *points,
+                        LimitTags &tags,
+                        bool single_interval = false)
+{
+  int64_t rec_sum = 0;
+  uint64_t rec_n  = 0, rec_mask = 0;
+  for (auto &kv : recorded)
+  {
+    rec_sum += kv.second.sum;
+    rec_n += kv.second.count;
+    rec_mask |= kv.second.mask;
+  }
+  if (!points)
+  {
+    VH_CHECK(c, rec_n == 0, label << ": nothing was reported although " << rec_n << " measurements over "
+                                  << recorded.size() << " attribute sets were recorded in the period");
+    return;
+  }
+  VH_CHECK(c, points->size() <= limit, label << ": " << points->size() << " series reported, the cardinality limit is "
+                                             << limit << " (" << recorded.size() << " distinct sets recorded)");
+  std::set<std::string> seen;
+  int64_t got_sum = 0;
+  uint64_t got_n = 0, got_mask = 0;
+  bool overflow = false;
+  for (auto &pa : *points)
+  {
+    KVMap attrs     = to_model(pa.attributes);
+    std::string key = canon_map(attrs);
+    std::string what = label + " series " + show_map(attrs);
+    VH_CHECK(c, seen.insert(key).second, what << ": reported twice in one collection");
+    PV v = point_value(c, pa.point_data, kind, what);
+    got_sum += v.sum;
+    got_n += v.count;
+    auto it = recorded.find(key);
+    if (it != recorded.end())
+    {
+      // a series under its own attributes never holds more than was recorded for that set
+      if (bits)
+        VH_CHECK(c, (static_cast<uint64_t>(v.sum) & ~it->second.mask) == 0,
+                 what << ": value 0x" << std::hex << v.sum << " contains measurements (bit = record number) that were "
+                      << "not recorded for this set (0x" << it->second.mask << ")");
+      VH_CHECK(c, v.sum <= it->second.sum, what << ": reports " << v.sum << " but only " << it->second.sum
+                                                << " was recorded for this set");
+      if (Instr::is_hist(kind))
+        VH_CHECK(c, v.count <= it->second.count, what << ": reports " << v.count << " measurements but only "
+                                                      << it->second.count << " were recorded for this set");
+      // within one interval equal sets always meet in one series: a set that has its own series
+      // holds everything recorded for it (only whole sets are folded into the overflow series)
+      if (single_interval)
+        VH_CHECK(c, v.sum == it->second.sum && (!Instr::is_hist(kind) || v.count == it->second.count),
+                 what << ": reports " << v.sum << " but " << it->second.sum << " was recorded for this set within "
+                      << "the one interval the report covers (measurements of one set were split between its own "
+                      << "series and another one)");
+      if (bits)
+        got_mask |= static_cast<uint64_t>(v.sum);
+    }
+    else if (is_overflow_attrs(attrs))
+    {
+      overflow           = true;
+      tags.overflow_seen = true;
+      if (bits)
+        got_mask |= static_cast<uint64_t>(v.sum);
+    }
+    else if (ever.count(key) && v.sum == 0 && v.count == 0)
+    {
+      tags.stale_zero = true;  // an all-zero point for a set without measurements in this period
+    }
+    else
+    {
+      VH_CHECK(c, false, what << ": " << (ever.count(key) ? "no measurement with these attributes in this period"
+                                                          : "nobody recorded these attributes")
+                              << " and it is not {otel.metrics.overflow=true} (value " << v.sum << ")");
+    }
+  }
+  VH_CHECK(c, got_sum == rec_sum, label << ": the reported series add up to " << got_sum << " but " << rec_sum
+                                        << " was recorded (" << points->size() << " series, " << recorded.size()
+                                        << " distinct sets, limit " << limit << (overflow ? ", overflow series present" : "")
+                                        << ")");
+  if (Instr::is_hist(kind))
+    VH_CHECK(c, got_n == rec_n, label << ": the reported series hold " << got_n << " measurements but " << rec_n
+                                      << " were recorded");
+  if (bits)
+    VH_CHECK(c, got_mask == rec_mask, label << ": measurements lost or duplicated: reported 0x" << std::hex << got_mask
+                                            << " recorded 0x" << rec_mask);
+  if (recorded.size() + 1 <= limit)
+  {
+    // fewer distinct sets than the limit allows: keyed exactly by attribute set, nothing folded
+    if (recorded.size() + 1 == limit)
+      tags.at_limit_minus_1 = true;
+    VH_CHECK(c, !overflow, label << ": an overflow series although only " << recorded.size()
+                                 << " distinct sets were recorded (limit " << limit << ")");
+    for (auto &kv : recorded)
+    {
+      VH_CHECK(c, seen.count(kv.first), label << ": no series for " << show_map(kv.second.attrs) << " ("
+                                              << kv.second.count << " measurements, limit not reached)");
+    }
+    for (auto &pa : *points)
+    {
+      KVMap attrs = to_model(pa.attributes);
+      auto it     = recorded.find(canon_map(attrs));
+      if (it == recorded.end())
+        continue;
+      PV v = point_value(c, pa.point_data, kind, label);
+      VH_CHECK(c, v.sum == it->second.sum && (!Instr::is_hist(kind) || v.count == it->second.count),
+               label << " series " << show_map(attrs) << ": reports " << v.sum << " but " << it->second.sum
+                     << " was recorded (limit not reached)");
+    }
+    tags.exact_report = true;
+  }
+  else if (recorded.size() == limit)
+    tags.at_limit = true;
+  else
+    tags.above_limit = true;
+}
+}  // namespace
+
+// ================================================================================================
+VH_TARGET(instrument_series, 14,
+          "non-trivial when some Add was spelled as a permutation != identity of a base list with >= 2 "
+          "distinct keys, or the view's allow-list removed one of its keys; distinct = distinct "
+          "(configuration, operation sequence) text")
+{
+  vh::Reader &rd = c.rd;
+  GenStats st;
+  // ---- configuration (drawn first)
+  int kind        = static_cast<int>(rd.weighted({3, 2, 2, 1, 1, 1}));
+  FilterPlan plan = gen_filter_plan(rd, false);
+  bool with_view  = plan.kind == 2 || rd.coin();
+  unsigned nr     = 1 + (rd.chance(40) ? 1u : 0u);
+  bool delta[2]   = {rd.coin(), rd.coin()};
+  unsigned nb     = 1 + rd.below(3);
+  unsigned n_ops  = 2 + rd.below(22);
+  std::vector<KVList> bases;
+  std::vector<std::string> universe;
+  for (unsigned b = 0; b < nb; ++b)
+  {
+    bases.push_back(gen_list(rd, 5, true));
+    for (auto &k : distinct_keys(bases.back()))
+      if (std::find(universe.begin(), universe.end(), k) == universe.end())
+        universe.push_back(k);
+  }
+  Filter f = gen_filter(rd, plan, universe);
+  std::string cfg = std::string(Instr::name(kind)) + " " + (with_view ? "view " + f.show() : "no-view") + " readers=";
+  for (unsigned r = 0; r < nr; ++r)
+    cfg += delta[r] ? "D" : "C";
+  c.note(cfg + "\n");
+  for (unsigned b = 0; b < nb; ++b)
+    c.note("base" + std::to_string(b) + "=" + sg::show_kvlist(bases[b]) + "\n");
+  if (!with_view)
+    f.kind = 1;  // no view: the default processor keeps every key
+
+  sdkm::MeterProvider mp;
+  if (with_view)
+  {
+    std::unique_ptr<sdkm::View> view{new sdkm::View("", "", "", sdkm::AggregationType::kDefault, nullptr, f.make(plan.rvalue))};
+    std::unique_ptr<sdkm::InstrumentSelector> is{new sdkm::InstrumentSelector(Instr::type(kind), "inst", "u")};
+    std::unique_ptr<sdkm::MeterSelector> ms{new sdkm::MeterSelector("c08", "1", "")};
+    mp.AddView(std::move(is), std::move(ms), std::move(view));
+  }
+  std::vector<std::shared_ptr<CycleReader>> readers;
+  for (unsigned r = 0; r < nr; ++r)
+  {
+    readers.emplace_back(new CycleReader(delta[r] ? sdkm::AggregationTemporality::kDelta
+                                                  : sdkm::AggregationTemporality::kCumulative));
+    mp.AddMetricReader(readers.back());
+  }
+  auto meter = mp.GetMeter("c08", "1", "");
+  Instr inst;
+  inst.kind = kind;
+  inst.create(*meter, "inst");
+
+  // ---- model: per reader, what was recorded since its last collection, and since the start
+  std::vector<Period> pending(nr), total(nr);
+  std::map<std::string, std::set<std::string>> spellings;  // series -> distinct list texts
+  std::map<std::string, std::set<std::string>> by_keyset;  // key set -> distinct series
+  bool permuted_any = false, filtered_any = false;
+  unsigned n_adds = 0, n_collects = 0;
+
+  auto do_collect = [&](unsigned r, const std::string &label) {
+    std::vector<sdkm::PointDataAttributes> points;
+    unsigned metrics = 0;
+    readers[r]->Collect([&](sdkm::ResourceMetrics &rm) {
+      for (auto &smd : rm.scope_metric_data_)
+        for (auto &md : smd.metric_data_)
+        {
+          ++metrics;
+          for (auto &pa : md.point_data_attr_)
+            points.push_back(pa);
+        }
+      return true;
+    });
+    VH_CHECK(c, metrics <= 1, label << ": " << metrics << " metrics reported for one instrument with one view");
+    const Period &expect = delta[r] ? pending[r] : total[r];
+    std::set<std::string> seen;
+    for (auto &pa : points)
+    {
+      KVMap attrs      = to_model(pa.attributes);
+      std::string key  = canon_map(attrs);
+      std::string what = label + " series " + show_map(attrs);
+      VH_CHECK(c, seen.insert(key).second, what << ": two points for one attribute set in one collection");
+      PV v    = point_value(c, pa.point_data, kind, what);
+      auto it = expect.find(key);
+      if (it == expect.end())
+      {
+        // a delta reader may send an all-zero point for a series without new measurements
+        VH_CHECK(c, total[r].count(key) && v.sum == 0 && v.count == 0,
+                 what << ": no Add in this period produces these attributes after filtering (value " << v.sum << ")");
+        continue;
+      }
+      VH_CHECK(c, v.sum == it->second.sum, what << ": reports " << v.sum << " but the Adds with this filtered "
+                                                << "attribute set add up to " << it->second.sum);
+      if (Instr::is_hist(kind))
+        VH_CHECK(c, v.count == it->second.count, what << ": reports " << v.count << " measurements, expected "
+                                                      << it->second.count);
+    }
+    // every set with measurements since this reader's last collection must have its own series
+    for (auto &kv : pending[r])
+      VH_CHECK(c, seen.count(kv.first), label << ": no series for " << show_map(kv.second.attrs) << " although "
+                                              << kv.second.count << " measurements were recorded since the last collection");
+    pending[r].clear();
+    ++n_collects;
+  };
+
+  for (unsigned op = 0; op < n_ops && (op < 2 || !rd.exhausted()); ++op)
+  {
+    if (rd.weighted({85, 15}) == 1)
+    {
+      unsigned r = rd.below(nr);
+      c.note("collect" + std::to_string(r) + "\n");
+      do_collect(r, "op" + std::to_string(op) + " reader" + std::to_string(r) + (delta[r] ? "(delta)" : "(cumulative)"));
+      continue;
+    }
+    int64_t v = static_cast<int64_t>(rd.weighted({4, 1}) == 0 ? rd.below(10) : (uint64_t(1) << 40) + rd.below(1000));
+    if (Instr::is_signed(kind) && rd.chance(30))
+      v = -v;
+    bool ctx = rd.chance(30);
+    KVMap model;
+    std::string text;
+    if (rd.chance(8))
+    {
+      inst.record(v, nullptr, ctx);
+      text = "(no attributes)";
+    }
+    else
+    {
+      const KVList &base = bases[rd.below(nb)];
+      KVList l           = base;
+      bool permuted      = false;
+      unsigned nt        = static_cast<unsigned>(rd.weighted({3, 4, 2}));
+      for (unsigned t = 0; t < nt; ++t)
+        switch (rd.weighted({4, 3, 2, 2, 1}))
+        {
+          case 0:
+            permuted = stable_permute(rd, l) || permuted;
+            break;
+          case 1:
+            inject_shadowed(rd, l);
+            break;
+          case 2:
+          {
+            // one more key: a stranger, a near miss of a key, or a key of the universe
+            std::string k = universe.empty() || rd.coin()
+                                ? near_key(rd, l.empty() ? std::string("k0") : l[rd.below(static_cast<uint32_t>(l.size()))].first)
+                                : universe[rd.below(static_cast<uint32_t>(universe.size()))];
+            l.insert(l.begin() + rd.below(static_cast<uint32_t>(l.size() + 1)),
+                     std::make_pair(k, normalized(sg::gen_value(rd))));
+            break;
+          }
+          case 3:
+            mutate(rd, l);
+            break;
+          default:
+            drop_shadowed(l);
+            break;
+        }
+      for (auto &kv : l)
+        kv.second = normalized(kv.second);
+      f11_sanitize(l);
+      Spelling sp = gen_spelling(rd, l, st);
+      model       = f.model(l);
+      {
+        sg::Arena a;
+        ListKV kv(l, sp, a);
+        inst.record(v, &kv, ctx);
+        a.release();
+      }
+      text = show_spelled(l, sp);
+      if (permuted && distinct_keys(base).size() >= 2)
+        permuted_any = true;
+      if (f.removes_key_of(l))
+        filtered_any = true;
+    }
+    c.note("add " + std::to_string(v) + " " + text + "\n");
+    std::string key = canon_map(model);
+    for (unsigned r = 0; r < nr; ++r)
+      for (Period *p : {&pending[r], &total[r]})
+      {
+        Acc &a = (*p)[key];
+        a.sum += v;
+        a.count += 1;
+        a.attrs = model;
+      }
+    spellings[key].insert(text);
+    std::string ks;
+    for (auto &kv : model)
+      ks += std::to_string(kv.first.size()) + ":" + kv.first + ";";
+    by_keyset[ks].insert(key);
+    ++n_adds;
+  }
+  // every reader collects after the last Add
+  for (unsigned r = 0; r < nr; ++r)
+    do_collect(r, "final reader" + std::to_string(r) + (delta[r] ? "(delta)" : "(cumulative)"));
+
+  c.nontrivial = permuted_any || filtered_any;
+  c.tag(std::string("inst-") + Instr::name(kind));
+  c.tag(!with_view ? "no-view" : f.kind == 2 ? "view-allow-list" : "view-default-processor");
+  c.tag("readers-" + std::to_string(nr));
+  if (permuted_any)
+    c.tag("permuted-add");
+  if (filtered_any)
+    c.tag("key-filtered-out");
+  bool many = false, near = false;
+  for (auto &kv : spellings)
+    many = many || kv.second.size() >= 2;
+  for (auto &kv : by_keyset)
+    near = near || kv.second.size() >= 2;
+  if (many)
+    c.tag("one-series-several-spellings");
+  if (near)
+    c.tag("same-keys-different-values");
+  if (spellings.size() >= 3)
+    c.tag("3+series");
+  if (n_collects > nr)
+    c.tag("several-cycles");
+  if (st.junk_layout)
+    c.tag("key-view-followed-by-junk");
+  if (st.nul_key)
+    c.tag("key-with-embedded-nul");
+}
+
+// ================================================================================================
+// storage level: cardinality limits
+namespace
+{
+// attribute set number i of a pool; sets of one pool differ by value, by type only, or by key
+KVList pool_set(unsigned style, unsigned i)
+{
+  KVList l;
+  switch (style)
+  {
+    case 0:
+      l.emplace_back("id", MValue(static_cast<int64_t>(i)));
+      break;
+    case 1:
+      l.emplace_back("a", MValue(static_cast<int32_t>(i % 3)));
+      l.emplace_back("b", MValue("s" + std::to_string(i / 3)));
+      break;
+    case 2:
+    {
+      // the same number under four types: four different series
+      int32_t n = static_cast<int32_t>(i / 4);
+      switch (i % 4)
+      {
+        case 0:
+          l.emplace_back("id", MValue(n));
+          break;
+        case 1:
+          l.emplace_back("id", MValue(static_cast<int64_t>(n)));
+          break;
+        case 2:
+          l.emplace_back("id", MValue(std::to_string(n)));
+          break;
+        default:
+          l.emplace_back("id", MValue(static_cast<double>(n)));
+          break;
+      }
+      break;
+    }
+    default:
+      if (i == 0)
+        break;  // the empty set
+      l.emplace_back("flag", MValue((i & 1) != 0));
+      l.emplace_back("k", MValue(std::vector<int32_t>{static_cast<int32_t>(i / 2), 7}));
+      if (i % 3 == 0)
+        l.emplace_back("id", MValue(std::string("x\0y", 3) + std::to_string(i)));
+      break;
+  }
+  return l;
+}
+
+const char *const kPoolKeys[] = {"id", "a", "b", "flag", "k"};
+
+struct CollectorModel
+{
+  bool delta = true;
+  Period pending, total;
+  unsigned collects  = 0;
+  unsigned intervals = 0;  // closed intervals with data waiting for this collector
+};
+
+struct LimitRun
+{
+  size_t limit = 2;
+  int kind     = 0;
+  bool bits    = false;
+  std::vector<CollectorModel> cols;
+  std::set<std::string> ever;
+  LimitTags tags;
+  bool multi_interval_overflow = false;
+  bool dirty                   = false;  // measurements since the last Collect by anybody
+  unsigned records             = 0;
+
+  void recorded(const KVMap &model, int64_t v, uint64_t bit)
+  {
+    std::string key = canon_map(model);
+    ever.insert(key);
+    for (auto &cm : cols)
+      for (Period *p : {&cm.pending, &cm.total})
+      {
+        Acc &a = (*p)[key];
+        a.sum += v;
+        a.count += 1;
+        a.mask |= bit;
+        a.attrs = model;
+      }
+    ++records;
+    dirty = true;
+  }
+  void check(vh::Case &c, unsigned k, const std::string &label, const std::vector<sdkm::PointDataAttributes> *points)
+  {
+    CollectorModel &cm = cols[k];
+    const Period &exp  = cm.delta ? cm.pending : cm.total;
+    // bookkeeping for the tags only: every Collect closes the live interval for all collectors; a
+    // report that combines several closed intervals (or an earlier cumulative report) and covers
+    // more sets than the limit exercises the overflow handling of the temporal merge
+    if (dirty)
+      for (auto &o : cols)
+        o.intervals++;
+    dirty = false;
+    if (exp.size() + 1 > limit && (cm.delta ? cm.intervals >= 2 : cm.collects >= 1 && cm.intervals >= 1))
+      multi_interval_overflow = true;
+    bool single_interval = cm.intervals <= 1 && (cm.delta || cm.collects == 0);
+    check_limit_report(c, label, limit, kind, bits, exp, ever, points, tags, single_interval);
+    cm.pending.clear();
+    cm.collects++;
+    cm.intervals = 0;
+  }
+  void emit_tags(vh::Case &c) const
+  {
+    if (tags.overflow_seen)
+      c.tag("overflow-series-reported");
+    if (tags.exact_report)
+      c.tag("report-below-limit-exact");
+    if (tags.at_limit_minus_1)
+      c.tag("distinct==limit-1");
+    if (tags.at_limit)
+      c.tag("distinct==limit");
+    if (tags.above_limit)
+      c.tag("distinct>limit");
+    if (multi_interval_overflow)
+      c.tag("merged-intervals>limit");
+    if (tags.stale_zero)
+      c.tag("zero-point-for-idle-series");
+  }
+};
+
+std::string col_label(const LimitRun &run, unsigned k)
+{
+  return "collector" + std::to_string(k) + (run.cols[k].delta ? "(delta)" : "(cumulative)") + " collection#" +
+         std::to_string(run.cols[k].collects + 1);
+}
+
+// SyncMetricStorage driven directly (the only place where this SDK version accepts an explicit limit)
+struct StorageRig
+{
+  std::unique_ptr<sdkm::AttributesProcessor> proc;
+  std::unique_ptr<sdkm::SyncMetricStorage> storage;
+  std::vector<std::shared_ptr<sdkm::CollectorHandle>> collectors;
+  std::chrono::system_clock::time_point start = std::chrono::system_clock::now();
+
+  void make(int kind, size_t limit, std::unique_ptr<sdkm::AttributesProcessor> p, const std::vector<bool> &delta)
+  {
+    proc = std::move(p);
+    sdkm::InstrumentDescriptor d{"inst", "", "u", Instr::type(kind),
+                                 Instr::is_double(kind) ? sdkm::InstrumentValueType::kDouble : sdkm::InstrumentValueType::kLong};
+    storage.reset(new sdkm::SyncMetricStorage(
+        d, Instr::is_hist(kind) ? sdkm::AggregationType::kHistogram : sdkm::AggregationType::kSum, proc.get(), nullptr, limit));
+    for (bool dl : delta)
+      collectors.emplace_back(new FixedCollector(dl ? sdkm::AggregationTemporality::kDelta
+                                                    : sdkm::AggregationTemporality::kCumulative));
+  }
+  void record(int kind, int64_t v, const common::KeyValueIterable *kv)
+  {
+    otel::context::Context ctx{};
+    if (Instr::is_double(kind))
+      kv ? storage->RecordDouble(static_cast<double>(v), *kv, ctx) : storage->RecordDouble(static_cast<double>(v), ctx);
+    else
+      kv ? storage->RecordLong(v, *kv, ctx) : storage->RecordLong(v, ctx);
+  }
+  // returns false when nothing was delivered
+  bool collect(unsigned k, std::vector<sdkm::PointDataAttributes> &points, unsigned &deliveries)
+  {
+    deliveries = 0;
+    storage->Collect(collectors[k].get(), collectors, start, std::chrono::system_clock::now(), [&](sdkm::MetricData md) {
+      ++deliveries;
+      for (auto &pa : md.point_data_attr_)
+        points.push_back(pa);
+      return true;
+    });
+    return deliveries > 0;
+  }
+};
+
+void storage_collect(vh::Case &c, StorageRig &rig, LimitRun &run, unsigned k)
+{
+  std::vector<sdkm::PointDataAttributes> points;
+  unsigned deliveries = 0;
+  std::string label   = col_label(run, k);
+  bool got            = rig.collect(k, points, deliveries);
+  VH_CHECK(c, deliveries <= 1, label << ": " << deliveries << " MetricData delivered by one Collect");
+  run.check(c, k, label, got ? &points : nullptr);
+}
+}  // namespace
+
+VH_TARGET(storage_limits, 8,
+          "non-trivial when some report covers more distinct attribute sets than the limit allows "
+          "(within one interval or only after several intervals were combined); distinct = distinct "
+          "(configuration, operation sequence) text")
+{
+  vh::Reader &rd = c.rd;
+  LimitRun run;
+  // ---- configuration
+  run.limit        = 2 + rd.below(9);
+  run.kind         = static_cast<int>(rd.weighted({4, 2, 0, 0, 1, 1}));
+  run.bits         = !Instr::is_hist(run.kind) && rd.chance(40);
+  unsigned style   = rd.below(4);
+  bool filtering   = rd.chance(40);
+  unsigned ncol    = 1 + (rd.chance(45) ? 1u : 0u);
+  std::vector<bool> delta;
+  for (unsigned k = 0; k < ncol; ++k)
+    delta.push_back(!rd.coin());
+  unsigned pool    = static_cast<unsigned>(run.limit) - 1 + rd.below(static_cast<uint32_t>(run.limit) + 6);
+  bool single_delta = ncol == 1 && delta[0];
+  if (vh::excluded("F10") && !single_delta && pool + 1 > run.limit)
+  {
+    // open finding F10: the temporal merge overwrites the overflow series; stay below the limit
+    vh::count_excluded("F10");
+    pool = static_cast<unsigned>(run.limit) - 1;
+  }
+  if (pool == 0)
+    pool = 1;
+  unsigned n_ops = 3 + rd.below(60);
+  Filter f;
+  f.kind = filtering ? 2 : 1;
+  for (auto k : kPoolKeys)
+    f.allow.insert(k);
+  for (bool d : delta)
+  {
+    CollectorModel cm;
+    cm.delta = d;
+    run.cols.push_back(cm);
+  }
+  StorageRig rig;
+  rig.make(run.kind, run.limit, f.make(true), delta);
+  std::string cfg = "limit=" + std::to_string(run.limit) + " " + Instr::name(run.kind) + (run.bits ? " bit-values" : "") +
+                    " pool=" + std::to_string(pool) + "/style" + std::to_string(style) + (filtering ? " allow-list" : " default-processor") +
+                    " collectors=";
+  for (bool d : delta)
+    cfg += d ? "D" : "C";
+  c.note(cfg + "\n");
+
+  GenStats st;
+  bool stop_records = false;
+  auto record_one   = [&](unsigned si, int64_t v, bool fancy) {
+    if (run.bits)
+    {
+      if (run.records >= 50)
+        return;
+      v = int64_t(1) << run.records;
+    }
+    KVList l = pool_set(style, si);
+    if (fancy)
+    {
+      // other spellings of the same set: order, a shadowed duplicate, a key the allow-list removes
+      if (rd.coin())
+        stable_permute(rd, l);
+      if (rd.chance(25))
+        inject_shadowed(rd, l);
+      if (filtering && rd.coin())
+        l.insert(l.begin() + rd.below(static_cast<uint32_t>(l.size() + 1)),
+                 std::make_pair(std::string(rd.coin() ? "noise" : "id#J"), MValue(static_cast<int32_t>(rd.u8()))));
+    }
+    f11_sanitize(l);
+    KVMap model = f.model(l);
+    if (model.empty() && rd.coin())
+      rig.record(run.kind, v, nullptr);
+    else
+    {
+      Spelling sp;
+      if (fancy)
+        sp = gen_spelling(rd, l, st);
+      sg::Arena a;
+      ListKV kv(l, sp, a);
+      rig.record(run.kind, v, &kv);
+      a.release();
+    }
+    run.recorded(model, v, run.bits ? static_cast<uint64_t>(v) : 0);
+  };
+
+  for (unsigned op = 0; op < n_ops && (op < 3 || !rd.exhausted()); ++op)
+  {
+    size_t what = rd.weighted({55, 20, 25});
+    if (what != 2 && stop_records)
+      continue;
+    if (what == 0)
+    {
+      unsigned si = rd.below(pool);
+      int64_t v   = static_cast<int64_t>(rd.weighted({1, 5, 1}) == 0 ? 0 : 1 + rd.below(9));
+      c.note("rec s" + std::to_string(si) + " " + std::to_string(v) + "\n");
+      record_one(si, v, true);
+    }
+    else if (what == 1)
+    {
+      // burst: each set of a range once
+      unsigned from = rd.below(pool), n = 1 + rd.below(pool);
+      c.note("burst s" + std::to_string(from) + "+" + std::to_string(n) + "\n");
+      for (unsigned i = 0; i < n; ++i)
+        record_one((from + i) % pool, 1 + static_cast<int64_t>(i % 5), false);
+    }
+    else
+    {
+      unsigned k = rd.below(ncol);
+      if (run.cols[k].collects >= 3)
+        continue;
+      c.note("collect" + std::to_string(k) + "\n");
+      storage_collect(c, rig, run, k);
+      if (vh::excluded("F9") && !stop_records)
+      {
+        // open finding F9: after the first Collect the interval table forgets the explicit limit
+        vh::count_excluded("F9");
+        stop_records = true;
+      }
+    }
+  }
+  for (unsigned k = 0; k < ncol; ++k)
+    storage_collect(c, rig, run, k);
+
+  c.nontrivial = run.tags.above_limit || run.tags.at_limit;
+  c.tag("limit-" + std::to_string(run.limit));
+  c.tag(std::string("inst-") + Instr::name(run.kind));
+  c.tag(ncol == 1 ? (delta[0] ? "single-delta-collector" : "single-cumulative-collector")
+                  : (delta[0] != delta[1] ? "collectors-mixed" : delta[0] ? "collectors-DD" : "collectors-CC"));
+  if (run.bits)
+    c.tag("bit-values");
+  if (filtering)
+    c.tag("allow-list");
+  unsigned maxc = 0;
+  for (auto &cm : run.cols)
+    maxc = std::max(maxc, cm.collects);
+  c.tag("cycles-" + std::to_string(maxc));
+  run.emit_tags(c);
+}
+
+// ================================================================================================
+// provider level, default limit (2000)
+namespace
+{
+struct ProviderRig
+{
+  sdkm::MeterProvider mp;
+  std::vector<std::shared_ptr<CycleReader>> readers;
+  nostd::shared_ptr<apim::Meter> meter;
+  Instr inst;
+
+  void make(int kind, bool with_view, const std::vector<bool> &delta)
+  {
+    if (with_view)
+    {
+      std::unique_ptr<sdkm::View> view{new sdkm::View("", "", "", sdkm::AggregationType::kDefault, nullptr)};
+      std::unique_ptr<sdkm::InstrumentSelector> is{new sdkm::InstrumentSelector(Instr::type(kind), "inst", "u")};
+      std::unique_ptr<sdkm::MeterSelector> ms{new sdkm::MeterSelector("c08", "1", "")};
+      mp.AddView(std::move(is), std::move(ms), std::move(view));
+    }
+    for (bool d : delta)
+    {
+      readers.emplace_back(new CycleReader(d ? sdkm::AggregationTemporality::kDelta : sdkm::AggregationTemporality::kCumulative));
+      mp.AddMetricReader(readers.back());
+    }
+    meter     = mp.GetMeter("c08", "1", "");
+    inst.kind = kind;
+    inst.create(*meter, "inst");
+  }
+  void add_range(LimitRun &run, unsigned from, unsigned n, int64_t v)
+  {
+    for (unsigned i = from; i < from + n; ++i)
+    {
+      KVList l{{"id", MValue(static_cast<int64_t>(i))}};
+      Spelling sp;
+      sp.layout.push_back(i % 2 ? kJunkAfter : kExactCStr);
+      if (vh::excluded("F11"))
+        sp.layout[0] = kExactCStr;
+      sg::Arena a;
+      ListKV kv(l, sp, a);
+      inst.record(v, &kv, false);
+      a.release();
+      KVMap m;
+      sg::apply_last_wins(m, l);
+      run.recorded(m, v, 0);
+    }
+  }
+  void collect(vh::Case &c, LimitRun &run, unsigned k)
+  {
+    std::vector<sdkm::PointDataAttributes> points;
+    unsigned metrics = 0;
+    readers[k]->Collect([&](sdkm::ResourceMetrics &rm) {
+      for (auto &smd : rm.scope_metric_data_)
+        for (auto &md : smd.metric_data_)
+        {
+          ++metrics;
+          for (auto &pa : md.point_data_attr_)
+            points.push_back(pa);
+        }
+      return true;
+    });
+    std::string label = col_label(run, k);
+    VH_CHECK(c, metrics <= 1, label << ": " << metrics << " metrics reported for one instrument");
+    run.check(c, k, label, metrics ? &points : nullptr);
+  }
+};
+}  // namespace
+
+VH_TARGET(provider_default_limit, 1,
+          "non-trivial when some report covers more than 1999 distinct attribute sets (the default "
+          "limit is 2000); distinct = distinct (configuration, cycle plan) text")
+{
+  vh::Reader &rd = c.rd;
+  LimitRun run;
+  run.limit      = 2000;
+  run.kind       = static_cast<int>(rd.weighted({4, 2}));
+  bool with_view = rd.coin();
+  unsigned ncol  = 1 + (rd.chance(35) ? 1u : 0u);
+  std::vector<bool> delta;
+  for (unsigned k = 0; k < ncol; ++k)
+    delta.push_back(rd.coin());  // zero byte: a cumulative reader
+  unsigned cycles = 1 + rd.below(3);
+  for (bool d : delta)
+  {
+    CollectorModel cm;
+    cm.delta = d;
+    run.cols.push_back(cm);
+  }
+  bool single_delta = ncol == 1 && delta[0];
+  bool capped       = vh::excluded("F10") && !single_delta;
+  ProviderRig rig;
+  rig.make(run.kind, with_view, delta);
+  std::string cfg = std::string(Instr::name(run.kind)) + (with_view ? " view" : " no-view") + " readers=";
+  for (bool d : delta)
+    cfg += d ? "D" : "C";
+  c.note(cfg + "\n");
+  static const unsigned sizes[] = {1500, 1999, 2000, 2001, 2500, 1998, 700, 40};
+  unsigned next = 0, prev_from = 0, prev_n = 0;
+  for (unsigned cy = 0; cy < cycles; ++cy)
+  {
+    unsigned n    = sizes[rd.below(8)];
+    unsigned from = next;
+    switch (rd.weighted({5, 2, 2}))
+    {
+      case 0:
+        break;  // new sets only
+      case 1:
+        from = prev_from;  // the same sets again
+        break;
+      default:
+        from = prev_from + prev_n / 2;  // half old, half new
+        break;
+    }
+    if (capped && from + n > 1999)
+    {
+      // open finding F10: stay below the limit unless the single-delta fast path is used
+      vh::count_excluded("F10");
+      from = 0;
+      n    = std::min(n, 1999u);
+    }
+    int64_t v = 1 + rd.below(5);
+    c.note("cycle" + std::to_string(cy) + ": add " + std::to_string(v) + " to sets [" + std::to_string(from) + "," +
+           std::to_string(from + n) + ")");
+    rig.add_range(run, from, n, v);
+    prev_from = from;
+    prev_n    = n;
+    next      = std::max(next, from + n);
+    for (unsigned k = 0; k < ncol; ++k)
+      if (cy + 1 == cycles || !rd.chance(25))
+      {
+        c.note(" collect" + std::to_string(k));
+        rig.collect(c, run, k);
+      }
+    c.note("\n");
+  }
+  c.nontrivial = run.tags.above_limit || run.tags.at_limit;
+  c.tag(std::string("inst-") + Instr::name(run.kind));
+  c.tag(ncol == 1 ? (delta[0] ? "single-delta-reader" : "single-cumulative-reader")
+                  : (delta[0] != delta[1] ? "readers-mixed" : delta[0] ? "readers-DD" : "readers-CC"));
+  c.tag("cycles-" + std::to_string(cycles));
+  run.emit_tags(c);
+}
+
+// ================================================================================================
+// Fixed regression / witness cases of the findings F9, F10, F11 (no generator involved, so decoder
+// changes cannot invalidate the replay files that name them).
+
+// F9: explicit limit 3, one delta collector, two intervals of 5 distinct sets each
+VH_TARGET(f9_witness, 1, "fixed case: the explicit cardinality limit must still hold in the second interval")
+{
+  c.note("SyncMetricStorage(limit=3), one delta collector; 2 x (record 5 distinct sets, collect)\n");
+  LimitRun run;
+  run.limit = 3;
+  run.kind  = 0;
+  CollectorModel cm;
+  cm.delta = true;
+  run.cols.push_back(cm);
+  StorageRig rig;
+  Filter f;
+  f.kind = 1;
+  rig.make(run.kind, run.limit, f.make(true), {true});
+  for (unsigned cy = 0; cy < 2; ++cy)
+  {
+    for (unsigned i = 0; i < 5; ++i)
+    {
+      KVList l = pool_set(0, i);
+      Spelling sp;
+      sg::Arena a;
+      ListKV kv(l, sp, a);
+      rig.record(run.kind, 1 + i, &kv);
+      a.release();
+      run.recorded(f.model(l), 1 + i, 0);
+    }
+    storage_collect(c, rig, run, 0);
+  }
+  c.nontrivial = true;
+}
+
+// F10: cumulative reader, default limit, 1500 new sets in each of two cycles
+VH_TARGET(f10_witness, 1, "fixed case: a cumulative reader must still total everything once the merged series exceed the limit")
+{
+  c.note("MeterProvider, one cumulative reader, u64 counter; 2 x (Add(1) to 1500 new sets, collect)\n");
+  LimitRun run;
+  run.limit = 2000;
+  run.kind  = 0;
+  CollectorModel cm;
+  cm.delta = false;
+  run.cols.push_back(cm);
+  ProviderRig rig;
+  rig.make(run.kind, false, {false});
+  for (unsigned cy = 0; cy < 2; ++cy)
+  {
+    rig.add_range(run, cy * 1500, 1500, 1);
+    rig.collect(c, run, 0);
+  }
+  c.nontrivial = true;
+}
+
+// F11: an allowed key handed over as a view that is not NUL-terminated
+VH_TARGET(f11_witness, 1, "fixed case: the allow-list lookup must use the key view's length")
+{
+  c.note("FilteringAttributesProcessor{k1, k}; keys 'k1' (view followed by '#J'), 'k\\0x' (embedded NUL)\n");
+  Filter f;
+  f.kind  = 2;
+  f.allow = {"k1", "k"};
+  auto proc = f.make(false);
+  KVList l{{"k1", MValue(int32_t(7))}, {std::string("k\0x", 3), MValue(std::string("v"))}};
+  Spelling sp;
+  sp.layout = {kJunkAfter, kExactCStr};
+  for (auto &b : build_all(l, sp, proc.get()))
+    check_built(c, b, f.model(l), "witness");
+  c.nontrivial = true;
 }
